@@ -37,3 +37,74 @@ Definition demo : list action :=
    AUnsReg 0 0; AUnsMark 0 0; AUnsEnq 0 0; ASubReg 0 0; ASubMark 0 0; ASubEnq 0 0;
    ANDeq; ANMerge; ANSend 0; ANSend 1; ANDeq; ANMerge; ANSend 1; ANSend 0;
    AWTake 0; AWScan 0; AWDeliver 0; AWTake 1; AWScan 1; AWDeliver 1].
+
+(* ---- what the blocking send of Update is needed for ---- *)
+(* the same transition system with Update's enqueue as a select/default (upd_enq_gen false: the
+   event is dropped when the queue is full) - the shape the model takes when the translator finds
+   in10n_update_enqueue_blocking = false *)
+Definition step_drop (s : state) (a : action) : option (state * out) :=
+  match a with
+  | AUpdEnq p => match upd_enq_gen false p s with Some s' => Some (s', ONone) | None => None end
+  | ABlocked _ => None
+  | _ => step s a
+  end.
+
+Fixpoint run_with (stp : state -> action -> option (state * out)) (P : state -> action -> bool) (s : state) (l : list action)
+  : option (state * list ev) :=
+  match l with
+  | [] => Some (s, [])
+  | a :: r => if P s a then
+                match stp s a with
+                | Some (s', o) => match run_with stp P s' r with Some (s'', evs) => Some (s'', (a, o) :: evs) | None => None end
+                | None => None
+                end
+              else None
+  end.
+
+Lemma run_with_step P s l : run_with step P s l = run P s l.
+Proof.
+  revert s. induction l as [|a r IH]; intros s; cbn; [reflexivity|].
+  destruct (P s a); [|reflexivity]. destruct (step s a) as [[s' o]|]; [|reflexivity]. rewrite IH. reflexivity.
+Qed.
+
+(* channel 0 subscribes and watches projection 0; the notifier lags while ten updates of projection
+   1 fill the queue; then projection 0 is updated to 5 *)
+Definition burst : list action :=
+  [ANewChan 0; ASubReg 0 0; ASubMark 0 0; ASubEnq 0 0; AWStart 0; ANDeq; ANMerge; ANSend 0; AWTake 0; AWScan 0; AWDeliver 0]
+  ++ flat_map (fun k => [AUpdStore 1 (N.of_nat (S k)); AUpdEnq 1]) (seq 0 10)
+  ++ [AUpdStore 0 5].
+Definition drain10 : list action := flat_map (fun _ => [ANDeq; ANMerge]) (seq 0 10).
+
+(* drop-when-full: the update of projection 0 returns, its event is gone, the notifier works off
+   the ten events of projection 1, everything is quiescent, and the subscriber of projection 0
+   has not been told offset 5 and never will *)
+Lemma drop_when_full_loses_last_offset_proved :
+  exists s evs ch,
+    run_with step_drop adm_mono (init qbig) (burst ++ [AUpdEnq 0] ++ drain10) = Some (s, evs) /\
+    quiet s = true /\ get 0 (chans s) = Some ch /\ c_w ch = WIdle /\ get 0 (c_subs ch) = Some 0 /\ offset s 0 = 5.
+Proof.
+  destruct (run_with step_drop adm_mono (init qbig) (burst ++ [AUpdEnq 0] ++ drain10)) as [[s evs]|] eqn:E; [|vm_compute in E; discriminate].
+  exists s, evs. vm_compute in E. inversion E; subst; clear E. eexists. vm_compute. repeat split; reflexivity.
+Qed.
+
+(* the code as it is: with the queue full the same Update cannot return (AUpdEnq is not enabled,
+   the harness observes ABlocked), it goes through after one dequeue, and the subscriber is told 5 *)
+Lemma blocking_send_keeps_last_offset_proved :
+  exists s evs s' evs',
+    run adm_mono (init qbig) (burst ++ [ABlocked 0]) = Some (s, evs) /\ step s (AUpdEnq 0) = None /\
+    run adm_mono s ([ANDeq; AUpdEnq 0; ANMerge] ++ drain10 ++ [ANSend 0; AWTake 0; AWScan 0; AWDeliver 0]) = Some (s', evs') /\
+    quiet s' = true /\ reports 0 0 evs' = [5].
+Proof.
+  destruct (run adm_mono (init qbig) (burst ++ [ABlocked 0])) as [[s evs]|] eqn:E; [|vm_compute in E; discriminate].
+  exists s, evs. vm_compute in E. inversion E; subst; clear E.
+  eexists. eexists. split; [reflexivity|]. split; [vm_compute; reflexivity|]. split; [vm_compute; reflexivity|].
+  vm_compute. split; reflexivity.
+Qed.
+
+(* with the blocking send an accepted enqueue always queues its event *)
+Lemma update_event_never_dropped_proved :
+  forall s p s' o, step s (AUpdEnq p) = Some (s', o) -> queue s' = queue s ++ [p].
+Proof.
+  intros s p s' o H. cbn [step] in H. destruct (upd_enq p s) as [s1|] eqn:E; inversion H; subst.
+  apply upd_enq_spec in E. subst. reflexivity.
+Qed.
